@@ -42,6 +42,27 @@ CLAIMS = {
          "and one-byte texts; the first use goes through a sequential model of sync.Once. Not decided: Example() matches the pattern (reggen and "
          "regexp are external), the OpenAPI pattern text, use as a user type.",
          "5 C18", "weakest-precondition VCs over go/ssa + SMT; escape-parity spec function with loop invariant"),
+ "C16": ("Bytes.LineAndColumn and NewLineSymbol are proved to return the 1-based line and column of a byte under the text's own newline symbol "
+         "(recursive spec functions: last byte of the first newline run; count of newline symbols before the index; bytes since the last one), "
+         "JSchemaError.SetIndex to store exactly that, lineBeginning/lineEnd to delimit the line so that the quoted source slice is always in "
+         "range, and SourceSubString/pointerToTheErrorCharacter/String never to panic under the stated API precondition (caret position not "
+         "inside leading blanks of a continuing line); the error-format table is evaluated to contain no %w/%v/%p verbs (no dumps of "
+         "internal structures); regex and number entry points are proved to produce positioned errors inside the text or plain coded "
+         "errors. Not decided: the scanners' error sites (index inside the text at every SetIndex of the schema/enum/JSON scanners), errs.f "
+         "placeholder counts, readability of messages.",
+         "5 C16", "weakest-precondition VCs over go/ssa + SMT; constant evaluation of the format table"),
+ "C04": ("Numeric rule values are proved never to wrap: Bytes.ParseUint/ParseInt return the exact decimal value or an error (no-wrap "
+         "obligations on u*10+d), so NewMinLength/NewMaxLength/NewMinItems/NewMaxItems/NewPrecision hold exactly the written number "
+         "(result.value == natval(rule text)) or panic with the documented code. Not decided: the homomorphism between source text and the "
+         "AST as a whole (node per element, notes, nested or/enum/allOf lists are built by the lexeme-driven loader state machines), "
+         "collectASTRules order.",
+         "5 C04", "weakest-precondition VCs over go/ssa + SMT"),
+ "C02": ("Run-time panic freedom (index, slice, nil dereference, type assertion, make size, nil-map write, integer wrap and conversion) and "
+         "loop termination are proved for every function under contract that carries this property: the entry points without recover "
+         "NewNumber, GuessSchemaType and the regex schema (Check/Len/Pattern/GetAST) are panic-free on every input (one recorded finding: "
+         "exponent magnitude above 2^40), plus ParseUint/ParseInt, text positions, error rendering. Not decided: the schema/enum/JSON scanners, "
+         "loader, compiler, checker, OpenAPI conversion (not under contract), stack depth, memory exhaustion.",
+         "5 C02", "weakest-precondition VCs over go/ssa + SMT (safety obligations on every operation, decreases clauses)"),
 }
 
 NOT_APPLICABLE = {
